@@ -1,10 +1,15 @@
 #!/bin/sh
-# builds the driver of the extracted model: ocaml/gen/model.ml{,i} must exist (coq `make`)
+# builds the driver of the extracted model: ocaml/gen/model.ml{,i} must exist (coq `make`).
+# Skips the build when the sources are unchanged; installs the new binary by an atomic rename
+# so that a check running the old one concurrently is not disturbed.
 set -e
 cd "$(dirname "$0")"
 mkdir -p _build
+sum=$(cat gen/model.ml gen/model.mli conv.ml hist.ml driver.ml | sha256sum | cut -d' ' -f1)
+if [ -x driver ] && [ -f _build/stamp ] && [ "$(cat _build/stamp)" = "$sum" ]; then exit 0; fi
 cp gen/model.ml gen/model.mli conv.ml hist.ml driver.ml _build/
-[ -f monitors_glue.ml ] && cp monitors_glue.ml _build/ || true
 cd _build
-ocamlfind ocamlopt -O3 -w -a -package str model.mli model.ml conv.ml hist.ml driver.ml -o ../driver 2>/dev/null || \
-ocamlfind ocamlopt -w -a model.mli model.ml conv.ml hist.ml driver.ml -o ../driver
+ocamlfind ocamlopt -O3 -w -a -package str model.mli model.ml conv.ml hist.ml driver.ml -o driver.new 2>/dev/null || \
+ocamlfind ocamlopt -w -a model.mli model.ml conv.ml hist.ml driver.ml -o driver.new
+mv -f driver.new ../driver
+echo "$sum" > stamp
